@@ -39,6 +39,29 @@ Definition mk_stage (starter worker : string) (fails : item -> bool) (lines : it
   | _, _ => None
   end.
 
+(* the goroutines a stage (or entry) function starts, itself or through helpers (generated table) *)
+Fixpoint find_starts (n : string) (l : list (string * list string * list string)) : option (list string * list string) :=
+  match l with
+  | [] => None
+  | (nm, lits, named) :: rest => if String.eqb n nm then Some (lits, named) else find_starts n rest
+  end.
+
+(* a stage function starts exactly one goroutine literal (the starter / closer) and at most one
+   named worker body; without a worker body the literal is the stage's only goroutine *)
+Definition stage_of (stagefn : string) (fails : item -> bool) (lines : item -> nat) : option sdesc :=
+  match find_starts stagefn starts with
+  | Some ([l], []) => mk_stage l l fails lines
+  | Some ([l], [w]) => mk_stage l w fails lines
+  | _ => None
+  end.
+
+(* the source goroutine of an entry point: the one goroutine literal it starts outside the stages *)
+Definition source_of (entry : string) : option string :=
+  match find_starts entry starts with
+  | Some ([l], []) => Some l
+  | _ => None
+  end.
+
 Fixpoint all_some {A : Type} (l : list (option A)) : option (list A) :=
   match l with
   | [] => Some []
@@ -57,21 +80,29 @@ Inductive sink := SinkText | SinkFormatted | SinkDry | SinkMkdir | SinkVerify | 
 
 Definition sink_stage (k : sink) (fails : item -> bool) (lines : item -> nat) : option sdesc :=
   match k with
-  | SinkText => mk_stage "defaultSpreaderPipeline.spread.go1" "defaultSpreaderPipeline.worker" fails lines
-  | SinkFormatted => mk_stage "formattedSpreaderPipeline.spread.go1" "formattedSpreaderPipeline.spread.go1" fails lines
-  | SinkDry => mk_stage "colorizeSpreaderPipeline.spread.go1" "colorizeSpreaderPipeline.spread.go1" fails lines
-  | SinkMkdir => mk_stage "defaultMkdirerPipeline.mkdir.go1" "defaultMkdirerPipeline.worker" fails lines
-  | SinkVerify => mk_stage "defaultVerifierPipeline.verify.go1" "defaultVerifierPipeline.worker" fails lines
-  | SinkWalk => mk_stage "defaultWalkerPipeline.walk.go1" "defaultWalkerPipeline.worker" fails lines
+  | SinkText => stage_of "defaultSpreaderPipeline.spread" fails lines
+  | SinkFormatted => stage_of "formattedSpreaderPipeline.spread" fails lines
+  | SinkDry => stage_of "colorizeSpreaderPipeline.spread" fails lines
+  | SinkMkdir => stage_of "defaultMkdirerPipeline.mkdir" fails lines
+  | SinkVerify => stage_of "defaultVerifierPipeline.verify" fails lines
+  | SinkWalk => stage_of "defaultWalkerPipeline.walk" fails lines
+  end.
+
+Definition md_entry (k : sink) : string :=
+  match k with
+  | SinkText | SinkFormatted => "treePipeline.output"
+  | SinkDry | SinkMkdir => "treePipeline.mkdir"
+  | SinkVerify => "treePipeline.verify"
+  | SinkWalk => "treePipeline.walk"
   end.
 
 (* From-Markdown: split -> generate -> grow (or the no-op grower) -> sink *)
 Definition md_params (k : sink) (nopgrow : bool) (items : list item) (src_err cancel : bool)
     (f_gen f_grow f_sink : item -> bool) (lines : item -> nat) : option params :=
-  match src_guards "split.go1",
-        all_some [mk_stage "rootGeneratorPipeline.generate.go1" "rootGeneratorPipeline.worker" f_gen lines;
-                  (if nopgrow then mk_stage "nopGrowerPipeline.grow.go1" "nopGrowerPipeline.grow.go1" (fun _ => false) lines
-                   else mk_stage "defaultGrowerPipeline.grow.go1" "defaultGrowerPipeline.worker" f_grow lines);
+  match match source_of (md_entry k) with Some g => src_guards g | None => None end,
+        all_some [stage_of "rootGeneratorPipeline.generate" f_gen lines;
+                  (if nopgrow then stage_of "nopGrowerPipeline.grow" (fun _ => false) lines
+                   else stage_of "defaultGrowerPipeline.grow" f_grow lines);
                   sink_stage k f_sink lines] with
   | Some (eg, rg), Some sts =>
       Some {| p_items := items; p_src_err := src_err; p_src_err_guarded := rg; p_src_emit_guarded := eg;
@@ -82,16 +113,16 @@ Definition md_params (k : sink) (nopgrow : bool) (items : list item) (src_err ca
 (* From-Root: feeder -> grow -> sink *)
 Definition root_feeder (k : sink) : string :=
   match k with
-  | SinkText | SinkFormatted => "treePipeline.outputProgrammably.go1"
-  | SinkDry | SinkMkdir => "treePipeline.mkdirProgrammably.go1"
-  | SinkVerify => "treePipeline.verifyProgrammably.go1"
-  | SinkWalk => "treePipeline.walkProgrammably.go1"
+  | SinkText | SinkFormatted => "treePipeline.outputProgrammably"
+  | SinkDry | SinkMkdir => "treePipeline.mkdirProgrammably"
+  | SinkVerify => "treePipeline.verifyProgrammably"
+  | SinkWalk => "treePipeline.walkProgrammably"
   end.
 
 Definition root_params (k : sink) (nopgrow : bool) (cancel : bool) (f_grow f_sink : item -> bool) (lines : item -> nat) : option params :=
-  match src_guards (root_feeder k),
-        all_some [(if nopgrow then mk_stage "nopGrowerPipeline.grow.go1" "nopGrowerPipeline.grow.go1" (fun _ => false) lines
-                   else mk_stage "defaultGrowerPipeline.grow.go1" "defaultGrowerPipeline.worker" f_grow lines);
+  match match source_of (root_feeder k) with Some g => src_guards g | None => None end,
+        all_some [(if nopgrow then stage_of "nopGrowerPipeline.grow" (fun _ => false) lines
+                   else stage_of "defaultGrowerPipeline.grow" f_grow lines);
                   sink_stage k f_sink lines] with
   | Some (eg, rg), Some sts =>
       Some {| p_items := [0]; p_src_err := false; p_src_err_guarded := rg; p_src_emit_guarded := eg;
